@@ -85,6 +85,22 @@ CLAIMS["C19"] = dict(
         "compared with the same oracle on the same symbolic inputs (lines, files, command lines): each equals the oracle, hence they equal each other.",
    note="dfs units are covered for the NDEBUG flavour only unless listed in evidence", ref="5 C19", tech=TECH_C)
 
+CLAIMS["C05"] = dict(
+   text="Decomposed: bit reversal (all bytes); CRC-16/CCITT one-step lemma; the HFE v1/v3 opcode interpreter copy_hfe against the format description "
+        "for every input of <= 5 (thorough 7) bytes; HFE header / track-table decoding; the HFE and HxC adapters return the sector recorded under "
+        "exactly (lba div spt, side, lba mod spt) or fail, on both sides of the disc. The monolithic 'encode a disc, decode it' round trip and the decoder "
+        "glue are NOT decided (no verdict within budget, see DESIGN.md 10).",
+   note="SKIPBITS semantics excluded (specification not available offline); track decoders' glue outside the claim", ref="5 C05 / 10", tech=TECH_CXX)
+CLAIMS["C06"] = dict(
+   text="CRC routine = CRC-16/CCITT for every state and byte (induction step); HxC and HFE adapters never return a sector other than the one addressed "
+        "when a damaged sector was dropped by track decoding (every position of the dropped sector on a 2x2 surface, lba symbolic). The decoder glue "
+        "(every yielded sector passed both CRC checks) could not be decided within budget and is outside the claim.",
+   note="see DESIGN.md 10 for the two attempted encodings of the decoder glue and their measured cost", ref="5 C06 / 10", tech=TECH_CXX)
+CLAIMS["C15"] = dict(
+   text="Case-insensitive comparison = lexicographic order of lower-cased strings (all strings of <= 3 seven-bit characters); CatalogEntry::has_name "
+        "finds an entry iff the directory is identical and the name equal ignoring case. Wildcard-to-regex translation is outside the claim (glibc regex).",
+   note="bounded string length 3; glibc regcomp/regexec not modelled", ref="5 C15", tech=TECH_CXX)
+
 NOT_APPLICABLE = {}
 
 LEVEL = "model_checking"
